@@ -296,6 +296,19 @@ def check_pus(case):
         true(devs, f"changed_after_pack.{tag}.check_pus_crc", check_pus_crc(again) is True, "standalone CRC check rejects the re-packed packet")
         if again[-2:] == crc_bytes(again[:-2]):
             dec[0][1](again)
+    # the checksum refusal carries the decoded packet (exception attribute tc / tm): it is the packet the buffer describes - same
+    # fields and data, lengths consistent - so that a caller can log or inspect what arrived
+    bad_crc = bytearray(raw)
+    bad_crc[-1] ^= 0x01
+    try:
+        dec[0][1](bytes(bad_crc))
+    except Exception as e_crc:  # noqa: BLE001 - looked at below
+        carried = getattr(e_crc, "tc", None) if case["kind"] == "tc" else getattr(e_crc, "tm", None)
+        if carried is not None:
+            data_view = bytes(carried.app_data) if case["kind"] == "tc" else bytes(carried.tm_data)
+            eq(devs, "refusal_carries_packet.data", data_view, app if case["kind"] == "tc" else src)
+            eq(devs, "refusal_carries_packet.packet_len_vs_pack", carried.packet_len, len(carried.pack()))
+            eq(devs, "refusal_carries_packet.repacked_is_the_uncorrupted_packet", bytes(carried.pack()), raw)
     if devs:
         return devs, 1
     n = run_faults(devs, raw, bits_of_octets([4, 5]), dec, case, None, verdict=check_pus_crc)
